@@ -212,6 +212,8 @@ class Evaluator:
             if d is not None and d in env:
                 return env[d]
             base = self.eval(n.value, env)
+            if isinstance(base, (str, list, dict, tuple, set)) and n.attr in _SAFE_METHODS.get(type(base).__name__, ()):
+                return _bound(base, n.attr)
             if isinstance(base, slice) and n.attr in ("start", "stop", "step"):
                 return getattr(base, n.attr)
             if isinstance(base, slice) and n.attr == "indices":
@@ -236,12 +238,18 @@ class Evaluator:
         if isinstance(n, ast.UnaryOp):
             v = self.eval(n.operand, env)
             if isinstance(n.op, ast.USub):
+                m = self._obj_method(v, "__neg__")
+                if m is not None:
+                    return m()
                 if isinstance(v, bool):
                     raise Undecided("-bool")
                 return -v
             if isinstance(n.op, ast.Not):
                 return not self.truth(v)
             if isinstance(n.op, ast.Invert):
+                m = self._obj_method(v, "__invert__")
+                if m is not None:
+                    return m()
                 f = self.funcs.get("__invert__")
                 if f:
                     return f(v)
@@ -300,9 +308,12 @@ class Evaluator:
                 return base[slice(lo, hi, st)]
             idx = self.eval(n.slice, env)
             if isinstance(base, dict):
-                if idx in base:
-                    return base[idx]
-                raise Undecided(f"missing key {idx!r}")
+                try:
+                    if idx in base:
+                        return base[idx]
+                except TypeError:
+                    raise Undecided("unhashable key")
+                raise Raised(f"KeyError({idx!r})")
             if isinstance(base, (list, tuple, str)) and isinstance(idx, slice):
                 return base[idx]
             if isinstance(base, (list, tuple, str)) and isinstance(idx, int) and not isinstance(idx, bool):
@@ -319,7 +330,16 @@ class Evaluator:
         if isinstance(n, ast.Dict):
             return {self.eval(k, env): self.eval(v, env) for k, v in zip(n.keys, n.values) if k is not None}
         if isinstance(n, ast.JoinedStr):
-            raise Undecided("f-string")
+            out_s = ""
+            for part in n.values:
+                if isinstance(part, ast.Constant):
+                    out_s += str(part.value)
+                elif isinstance(part, ast.FormattedValue):
+                    v = self.eval(part.value, env)
+                    if not _plain(v) or part.format_spec is not None or part.conversion not in (-1, 115):
+                        raise Undecided("f-string of abstract value")
+                    out_s += str(v)
+            return out_s
         raise Undecided(f"expression form {type(n).__name__}")
 
     def comp(self, n: ast.AST, env: Dict[str, Any]) -> List[Any]:
@@ -360,7 +380,7 @@ class Evaluator:
         elif isinstance(t, (ast.Tuple, ast.List)):
             vs = self.iterate(v)
             if len(vs) != len(t.elts):
-                raise Undecided("unpack arity")
+                raise Raised("ValueError(wrong number of values to unpack)")
             for a, b in zip(t.elts, vs):
                 self.bind(a, b, env)
         elif isinstance(t, ast.Subscript):
@@ -381,11 +401,51 @@ class Evaluator:
             raise Undecided("bind target")
 
     def truth(self, v: Any) -> bool:
-        if isinstance(v, (bool, int, list, tuple, str, dict)) or v is None:
+        if isinstance(v, (bool, int, list, tuple, str, dict, set)) or v is None:
             return bool(v)
+        m = self._obj_method(v, "__bool__")
+        if m is not None:
+            return self.truth(m())
+        if isinstance(v, Obj) and v.resolver is not None and self._obj_method(v, "__len__") is not None:
+            return self.truth(self._obj_method(v, "__len__")())
         raise Undecided(f"truth value of {v!r}")
 
+    _BIN = {ast.Add: "add", ast.Sub: "sub", ast.BitAnd: "and", ast.BitOr: "or", ast.BitXor: "xor", ast.Mult: "mul"}
+    _CMP = {ast.Eq: ("__eq__", "__eq__"), ast.NotEq: ("__ne__", "__ne__"), ast.Lt: ("__lt__", "__gt__"),
+            ast.LtE: ("__le__", "__ge__"), ast.Gt: ("__gt__", "__lt__"), ast.GtE: ("__ge__", "__le__")}
+
+    def _obj_method(self, o: Any, name: str) -> Any:
+        if isinstance(o, Obj) and o.resolver is not None:
+            try:
+                return o.resolver(o, name)
+            except Undecided:
+                return None
+        return None
+
+    def _dispatch_bin(self, op: ast.operator, a: Any, b: Any) -> Any:
+        nm = self._BIN.get(type(op))
+        if nm is None:
+            return _NODISPATCH
+        for obj, other, meth in ((a, b, f"__{nm}__"), (b, a, f"__r{nm}__")):
+            f = self._obj_method(obj, meth)
+            if f is not None:
+                self._enter()
+                try:
+                    r = f(other)
+                finally:
+                    self.depth -= 1
+                if r is not NOTIMPL:
+                    return r
+        if isinstance(a, Obj) or isinstance(b, Obj):
+            if (isinstance(a, Obj) and a.resolver is not None) or (isinstance(b, Obj) and b.resolver is not None):
+                raise Raised("TypeError(unsupported operand types)")
+        return _NODISPATCH
+
     def binop(self, op: ast.operator, a: Any, b: Any, n: ast.AST) -> Any:
+        if isinstance(a, Obj) or isinstance(b, Obj):
+            r = self._dispatch_bin(op, a, b)
+            if r is not _NODISPATCH:
+                return r
         if isinstance(op, (ast.Add, ast.Sub)) and (isinstance(a, Lin) or isinstance(b, Lin)):
             return a + b if isinstance(op, ast.Add) else (Lin.of(a) - b)
         if isinstance(op, ast.Add) and isinstance(a, (list, tuple, str)) and type(a) is type(b):
@@ -418,6 +478,24 @@ class Evaluator:
         raise Undecided(f"binary operation {norm(n)}")
 
     def compare(self, op: ast.cmpop, a: Any, b: Any) -> Any:
+        if type(op) in self._CMP and (
+            (isinstance(a, Obj) and a.resolver is not None) or (isinstance(b, Obj) and b.resolver is not None)
+        ):
+            fwd, rev = self._CMP[type(op)]
+            for obj, other, meth in ((a, b, fwd), (b, a, rev)):
+                f = self._obj_method(obj, meth)
+                if f is not None:
+                    self._enter()
+                    try:
+                        r = f(other)
+                    finally:
+                        self.depth -= 1
+                    if r is not NOTIMPL:
+                        return r
+            if isinstance(op, (ast.Eq, ast.NotEq)):
+                r = a is b
+                return r if isinstance(op, ast.Eq) else not r
+            raise Raised("TypeError(unsupported comparison)")
         if isinstance(op, (ast.Is, ast.IsNot)):
             r = a is b or (isinstance(a, Tag) and a == b) or (a is None and b is None)
             if isinstance(a, (bool,)) and isinstance(b, bool):
@@ -612,8 +690,39 @@ class Evaluator:
         elif isinstance(st, ast.Assert):
             if not self.truth(self.eval(st.test, env)):
                 raise Raised("AssertionError")
-        elif isinstance(st, (ast.Import, ast.ImportFrom, ast.Global, ast.Nonlocal)):
+        elif isinstance(st, (ast.Import, ast.ImportFrom)):
+            hook = self.funcs.get("__import__")
+            if hook is not None:
+                names = [a.name for a in st.names] if isinstance(st, ast.Import) else [st.module or ""]
+                for nm in names:
+                    hook(nm, env)
             return
+        elif isinstance(st, (ast.Global, ast.Nonlocal)):
+            return
+        elif isinstance(st, ast.Try):
+            try:
+                self.block(st.body, env)
+            except Raised as ex:
+                for h in st.handlers:
+                    names = []
+                    if h.type is None:
+                        names = ["*"]
+                    elif isinstance(h.type, ast.Tuple):
+                        names = [norm(e).split(".")[-1] for e in h.type.elts]
+                    else:
+                        names = [norm(h.type).split(".")[-1]]
+                    kind = ex.what.split("(")[0].split(".")[-1]
+                    if "*" in names or kind in names or "Exception" in names or "BaseException" in names:
+                        if h.name:
+                            env[h.name] = Tag(kind)
+                        self.block(h.body, env)
+                        break
+                else:
+                    self.block(st.finalbody, env)
+                    raise
+            else:
+                self.block(st.orelse, env)
+            self.block(st.finalbody, env)
         else:
             raise Undecided(f"statement form {type(st).__name__}")
 
@@ -639,11 +748,54 @@ class IndexOutOfRange(Exception):
 
 FELL = Tag("FELL-OFF-END")
 
+_SAFE_METHODS = {
+    "str": ("format", "join", "split", "strip", "startswith", "endswith", "lower", "upper", "isdigit", "index",
+            "find", "replace", "encode", "rstrip", "lstrip", "splitlines"),
+    "list": ("append", "extend", "index", "count", "copy", "pop", "insert", "reverse", "sort"),
+    "tuple": ("index", "count"),
+    "dict": ("get", "items", "keys", "values", "setdefault", "copy"),
+    "set": ("add", "copy"),
+}
+
+
+def _plain(x: Any) -> bool:
+    if isinstance(x, (str, int, bool, type(None))):
+        return True
+    if isinstance(x, (list, tuple)):
+        return all(_plain(y) for y in x)
+    return False
+
+
+def _bound(base: Any, name: str) -> Callable[..., Any]:
+    def call(*args: Any, **kwargs: Any) -> Any:
+        if isinstance(base, str):
+            if not all(_plain(a) for a in args) or not all(_plain(v) for v in kwargs.values()):
+                raise Undecided(f"str.{name} on abstract argument")
+            if name == "join":
+                args = (list(args[0]),)
+        r = getattr(base, name)(*args, **kwargs)
+        if name in ("items", "keys", "values"):
+            return list(r)
+        return r
+
+    return call
+
 
 def _len(x: Any) -> int:
     if isinstance(x, (list, tuple, str, dict, range)):
         return len(x)
     raise Undecided("len of abstract value")
+
+
+def _int(x: Any, *base: Any) -> int:
+    if isinstance(x, (int, bool)) and not base:
+        return int(x)
+    if isinstance(x, str) and all(isinstance(b, int) for b in base):
+        try:
+            return int(x, *base)
+        except ValueError:
+            raise Raised("ValueError(invalid literal for int())")
+    raise Undecided("int()")
 
 
 def _sum(xs: Any, start: Any = 0) -> Any:
@@ -659,6 +811,7 @@ def _sum(xs: Any, start: Any = 0) -> Any:
 
 
 NOTIMPL = Tag("NotImplemented")
+_NODISPATCH = Tag("no-dispatch")
 
 BUILTINS: Dict[str, Callable[..., Any]] = {
     "NotImplemented": NOTIMPL,  # type: ignore[dict-item]
@@ -675,7 +828,7 @@ BUILTINS: Dict[str, Callable[..., Any]] = {
     "max": max,
     "all": lambda xs: all(xs),
     "any": lambda xs: any(xs),
-    "int": lambda x: int(x) if isinstance(x, (int, bool)) else (_ for _ in ()).throw(Undecided("int()")),
+    "int": lambda x, *b: _int(x, *b),
     "bool": lambda x: bool(x) if isinstance(x, (int, bool)) else (_ for _ in ()).throw(Undecided("bool()")),
     "str": lambda x: str(x) if isinstance(x, (int, str)) and not isinstance(x, bool) else (_ for _ in ()).throw(Undecided("str()")),
     "dict": lambda *a: dict(*a),
